@@ -4,6 +4,7 @@ MODULES = [
     "contracts.c_static",
     "contracts.c_zip",
     "contracts.c_bool",
+    "contracts.c_throttle",
 ]
 EXPECTED_MIN_OBLIGATIONS = {}
 PROPERTY_ASSUMPTIONS = {}
